@@ -40,6 +40,9 @@ POOL = [
     ("top::Cls::Kind", "top.Cls.Kind", "enum", "top::Cls::Kind", "top::Cls::Kind", False, "top::Cls::Kind::A"),
     ("const double&", "double", "unwrap", "double", "double", False, "2.0"),
     ("unsigned char", "unsigned char", "unwrap", "unsigned char", "unsigned char", False, "'c'"),
+    # string literals behind an ODD number of quote characters (an escaped quote, a quote as character literal): the blanks inside count
+    ("string", "char", "unwrap", "string", "string", False, '"5\\"  wide\tx"'),
+    ("string", "char", "unwrap", "string", "string", False, 'ns::pad(\'"\', "  a  b")'),
 ]
 NP = len(POOL)
 # (interface spelling, number of outputs, list of (family, text pieces to find))
